@@ -36,6 +36,14 @@ type C09Params struct {
 	// EarlyState the application had already read ConnectionState() once before the writers ran
 	Export     string `json:"export,omitempty"`
 	EarlyState bool   `json:"early_state,omitempty"`
+	// Exhaust ("c" or "s", scn_c09x.go): that side's record number jumps to 2^48-Left, then it
+	// performs the operations XOps ('w' Write, 'u' UpdateKeys) and closes
+	Exhaust string `json:"exhaust,omitempty"`
+	Left    int    `json:"left,omitempty"`
+	XOps    string `json:"xops,omitempty"`
+	// MTU (both sides): handshake messages are fragmented, so that a lossy handshake has partially
+	// acknowledged (DTLS 1.3) or partially received flights and fragment-wise retransmissions
+	MTU int `json:"mtu,omitempty"`
 }
 
 func c09Counts(tier string) (int, int) {
@@ -72,9 +80,22 @@ func c09Gen(r *rand.Rand, tier string, idx int) any {
 	if c, _ := dataCfgByName(p.Cfg); c.C.MaxVer == 12 && len(p.RebindAt) == 0 && r.IntN(4) == 0 {
 		p.Export, p.EarlyState, p.CloseRace = []string{"c", "s"}[r.IntN(2)], r.IntN(2) == 0, false
 	}
+	if r.IntN(7) == 0 {
+		p.Exhaust, p.Left = []string{"c", "s"}[r.IntN(2)], r.IntN(4)
+		for k := 2 + r.IntN(5); k > 0; k-- {
+			p.XOps += string("wwu"[r.IntN(3)])
+		}
+	}
 	if r.IntN(3) != 0 {
 		p.Rules = NetRules{DropPm: 50 + r.IntN(250), DupPm: r.IntN(100), HoldPm: r.IntN(100), FaultsUntilIdx: 3 + r.IntN(12),
 			HoldMaxNs: int64(time.Millisecond) * int64(10+r.IntN(2500))}
+		if p.Exhaust == "" && p.Export == "" && r.IntN(3) == 0 {
+			p.MTU = []int{200, 300, 400, 600}[r.IntN(4)]
+			p.Rules.FaultsUntilIdx = 5 + r.IntN(40)
+			if p.Size > p.MTU/2 {
+				p.Size = 16
+			}
+		}
 	}
 
 	return p
@@ -144,7 +165,16 @@ func c09Run(rc *RunCtx, params any) {
 	}
 	rc.R.Class = cfg.Name
 	rc.Note("proto", protoTag(cfg.C, cfg.S))
+	if p.Exhaust != "" {
+		c09Exhaust(rc, p, cfg)
+
+		return
+	}
 	n := NewSimNet(s, p.Rules)
+	if p.MTU > 0 {
+		cfg.C.MTU, cfg.S.MTU = p.MTU, p.MTU
+		rc.R.Class += "/mtu"
+	}
 	pair, err := NewPair(s, n, cfg.C, cfg.S, nil)
 	if err != nil {
 		rc.Violate("harness", "config: %v", err)
